@@ -166,6 +166,14 @@ def entity_factories(ws):
     }
     for name, kw in data.items():
         mk[name] = (lambda kw=kw: objects.Points.create(ws, vertices=v).add_data({"d": dict(kw, association="VERTEX")}))
+
+    # entities stored in the concatenated arrays of a drillhole group: their setters do not write to the file but mark the
+    # group for a rewrite of its attribute table at close
+    def hole():
+        g = groups.DrillholeGroup.create(ws, name="DH")
+        return objects.Drillhole.create(ws, parent=g, name="well", collar=[0.0, 0, 0], surveys=np.c_[[0.0, 10.0], [0.0, 0.0], [-90.0, -90.0]])
+    mk["Drillhole(concatenated)"] = hole
+    mk["FloatData(concatenated)"] = lambda: hole().add_data({"d": {"depth": np.r_[1.0, 2.0, 3.0], "values": np.r_[5.0, 6.0, 7.0]}})
     return mk
 
 
@@ -191,19 +199,52 @@ def assignable(entity):
     return out
 
 
+def find_entity(w, uid):
+    """by identifier; data stored in the concatenated arrays of a drillhole group are only registered once their hole has
+    listed its children"""
+    e = w.get_entity(uid)[0]
+    if e is None:
+        for g in w.groups:
+            if hasattr(g, "concatenated_object_ids"):
+                for o in g.children:
+                    for nm in (o.get_data_list() if hasattr(o, "get_data_list") else []):
+                        for c in o.get_data(nm):
+                            if getattr(c, "uid", None) == uid:
+                                return c
+    return e
+
+
 def reread(path, uid, which):
     from geoh5py.workspace import Workspace
     w = Workspace(str(path), mode="r")
     try:
         if which == "workspace":
             return w, w
+        e = find_entity(w, uid)
         if which == "entity":
-            return w, w.get_entity(uid)[0]
-        e = w.get_entity(uid)[0]
+            return w, e
         return w, e.entity_type
     except Exception:
         w.close()
         raise
+
+
+def assign_and_read(ctx, ent, target, attr, k, case, skipped):
+    """assign one value; returns (value, live value after the assignment, whether it changed) or None when nothing was assigned"""
+    obj = ent if target == "entity" else ent.entity_type
+    cur = getattr(obj, attr)
+    val = new_value(attr, cur, k)
+    if val is None:
+        if k != "near":
+            skipped.add(f"{case['cls']}.{attr}")
+        return None
+    try:
+        setattr(obj, attr, val)
+    except Exception:  # noqa: BLE001   the value was not accepted: nothing to check
+        ctx.count("assignment_rejected")
+        return None
+    live = getattr(obj, attr)
+    return val, live, not same(live, cur)
 
 
 def sweep(ctx: Ctx):
@@ -226,24 +267,27 @@ def sweep(ctx: Ctx):
             for attr, k in itertools.product(attrs, list(range(nvals)) + ["near"]):
                 case = {"cls": label if target == "entity" else label + ".entity_type", "attr": attr, "k": k}
                 os.remove(path)
+                # the assignment is made in the session that created the entity (even k) or alone in a later session (odd k,
+                # "near"): in the latter nothing else the session does can carry the change into the file
+                later = k == "near" or k % 2 == 1
+                case["session"] = "later" if later else "creating"
                 try:
                     with Workspace.create(path) as ws:
                         ent = entity_factories(ws)[label]()
-                        obj = ent if target == "entity" else ent.entity_type
                         uid = ent.uid
-                        cur = getattr(obj, attr)
-                        val = new_value(attr, cur, k)
-                        if val is None:
-                            if k != "near":
-                                skipped.add(f"{case['cls']}.{attr}")
-                            continue
-                        try:
-                            setattr(obj, attr, val)
-                        except Exception as e:  # noqa: BLE001   the value was not accepted: nothing to check
-                            ctx.count("assignment_rejected")
-                            continue
-                        live = getattr(obj, attr)
-                        changed = not same(live, cur)
+                        outcome = None if later else assign_and_read(ctx, ent, target, attr, k, case, skipped)
+                        del ent
+                    if later:
+                        with Workspace(str(path), mode="r+") as ws:
+                            ent = find_entity(ws, uid)
+                            if ent is None:
+                                skipped.add(f"{case['cls']}: not found by identifier after re-opening")
+                                continue
+                            outcome = assign_and_read(ctx, ent, target, attr, k, case, skipped)
+                            del ent
+                    if outcome is None:
+                        continue
+                    val, live, changed = outcome
                     w2, obj2 = reread(path, uid, target)
                     try:
                         back = getattr(obj2, attr)
@@ -251,12 +295,24 @@ def sweep(ctx: Ctx):
                         w2.close()
                     ctx.case(case, nontrivial=changed, sample_cap=6)
                     ctx.count("pairs_checked")
+                    concat = "(concatenated)" in case["cls"]
+                    if concat and attr == "values" and k == "near":
+                        # values of concatenated data are stored in single precision (C08's business): compare as stored
+                        live, back = np.asarray(live, dtype="float32"), np.asarray(back, dtype="float32")
                     if not same(back, live):
-                        ctx.fail(case, f"{case['cls']}.{attr} = {wsh.tok(val)[:60]} accepted (live value {wsh.tok(live)[:60]}) but a fresh reader sees {wsh.tok(back)[:60]}",
-                                 f"C03:lost:{case['cls'].split('.')[0] if target == 'entity' else 'type'}:{attr}" if False else f"C03:lost:{attr}:{'type' if target == 'type' else attr_owner(obj)}")
+                        sig = f"C03:lost:{attr}:{'type' if target == 'type' else attr_owner(obj2)}"
+                        if concat and target == "type" and case["cls"].startswith("Drillhole"):
+                            sig = "C03:lost:type-of-concatenated-object"
+                        elif concat and attr == "metadata":
+                            sig = "C03:lost:metadata:concatenated-data"
+                        ctx.fail(case, f"{case['cls']}.{attr} = {wsh.tok(val)[:60]} accepted (live value {wsh.tok(live)[:60]}) but a fresh reader sees {wsh.tok(back)[:60]}", sig)
                 except Exception as e:  # noqa: BLE001
-                    ctx.fail(case, f"assign/close/re-read of {case['cls']}.{attr} raised {type(e).__name__}: {str(e)[:100]}",
-                             f"C03:raises:{attr}:{type(e).__name__}")
+                    sig = f"C03:raises:{attr}:{type(e).__name__}"
+                    if "(concatenated)" in case["cls"] and attr == "metadata" and case["cls"].startswith("Drillhole"):
+                        sig = "C03:concatenated-object-metadata-breaks-file"
+                    elif "(concatenated)" in case["cls"] and attr == "name" and case["cls"].startswith("FloatData") and target == "entity":
+                        sig = "C03:concatenated-data-rename"
+                    ctx.fail(case, f"assign/close/re-read of {case['cls']}.{attr} raised {type(e).__name__}: {str(e)[:100]}", sig)
     # Workspace header fields
     for attr, vals in (("distance_unit", ["feet", "km"]), ("ga_version", ["4.2", "9.9"]), ("version", [2.0, 2.1]),
                        ("contributors", [["alice"], ["bob", "carol"]]), ("name", ["PROJ", "X"])):
